@@ -18,7 +18,8 @@ ASSUMPTIONS = ['stored actions are sent back verbatim as reprs',
 BUDGET = {'quick': dict(examples=800, shards=16, max_seconds=75),
           'thorough': dict(examples=2400, shards=16, max_seconds=1800)}
 SHRINK_BUDGET = {'quick': 60, 'thorough': 400}
-ROOT_CAUSE_SUFFIXES = ('cells:lookup-KeyError-stale', 'summary-rows-renumbered', 'cells:lookup-key-column-type-changed')
+ROOT_CAUSE_SUFFIXES = ('cells:lookup-KeyError-stale', 'summary-rows-renumbered', 'cells:lookup-key-column-type-changed',
+                       'cells:NameError-stale-after-table-restored')
 
 
 def strategy(tier):
